@@ -1,18 +1,34 @@
 """C13 — malformed or lossy CAN traffic never crashes or fabricates telegrams."""
+import common
 import isotp_lib as L
+from extract import py2lean
 
 ID = "C13"
-LEAN_TARGETS = ["OdxVerif.Props.C13"]
+LEAN_TARGETS = ["OdxVerif.Props.C13", "OdxVerif.Props.C13Gen"]
 DRIVERS = ["drv_isotp"]
 P = "OdxVerif.IsoTp."
 THEOREMS = [P + t for t in ["C13_provenance", "C13_provenance_multi", "C13_recovery", "C13_stray_consecutive",
-                            "C13_transfer_leaves_clean"]]
+                            "C13_transfer_leaves_clean",
+                            # tie of kind (1): Gen/IsoTpStep.lean is regenerated from the source on every run (regen_isotp_step)
+                            "gen_stepE_eq", "gen_step_eq", "gen_feedE_eq",
+                            "C13_never_raises_gen", "C13_never_raises_slot_gen", "C13_provenance_gen", "C13_recovery_gen"]]
 RULE = ("well-formed streams (<= 12 frames) with every single fault (drop, duplicate, swap, truncate to 0-2 bytes, PCI nibble "
         "corrupted to each of 16 values, injected stray CF/FC/empty frame) at every position, sampled double faults, random "
         "frame soups; each followed by a well-formed transfer (recovery; every 6th one with >= 16 or >= 32 consecutive frames or CAN-FD frames, so that the sequence number wraps); distinct = distinct frame list; non-trivial = contains a fault or >= 2 frames")
-TRUSTED = ["model lean/OdxVerif/Model/IsoTp.lean is hand-written; tied to odxtools/isotp_state_machine.py by event-trace comparison",
+TRUSTED = ["model lean/OdxVerif/Model/IsoTp.lean is hand-written; tied to odxtools/isotp_state_machine.py (a) by the theorem gen_stepE_eq against the Lean "
+           "function regenerated on every run from decode_rx_frame/__init__ by harness/extract/py2lean.py, (b) by event-trace comparison",
+           "translator harness/extract/py2lean.py and the primitives lean/OdxVerif/Model/PyRt.lean (see C12)",
            "the provenance reference in harness/isotp_lib.py (reference_explain) is an independent 30-line reassembler"]
-ASSUMPTIONS = ["'never raises' is a theorem only in the sense that the model has no error outcome; for the Python code it is established by the correspondence runs"]
+ASSUMPTIONS = ["'never raises': theorem C13_never_raises_gen about the source as rendered by the translator (IndexError, TypeError on None, bitstruct.Error are "
+               "error outcomes of the rendering); exceptions outside the rendered subset semantics (e.g. from user callbacks) are covered by the correspondence runs only"]
+
+
+def regen_isotp_step(ctx):
+    """Gen/IsoTpStep.lean from the current source; Unsupported (source left the subset) = broken obligation"""
+    py2lean.regenerate_isotp(common.REPO, common.VERIF)
+
+
+GENERATORS = [regen_isotp_step]
 
 
 def faults(frames, cid):
